@@ -124,6 +124,19 @@ def damaged_images(sd):
     return out, img
 
 
+def big_inode_table_image():
+    """MKIMG image whose (uncompressed) inode table is larger than 64 KiB: inode references of the late directories need more than 32 bits"""
+    many = [(b"e%04d" % i, D([], tag="e%d" % i), None) for i in range(2300)]
+    root = D([(b"f", F(b"hello", tag="f"), None), (b"many", D(many, tag="many"), None)], tag="root")
+    img, _ = mkimg.build(root)
+    im = sqfsck.load(img)
+    if im.violations:
+        raise RuntimeError("MKIMG produced an invalid image: %s" % im.violations[:2])
+    if max(n["ref"] for n in im.tree.values()) < (1 << 32):
+        raise RuntimeError("big image has no inode reference beyond 32 bits")
+    return img
+
+
 def run_part(a):
     exe, img, opsf, mode = a[0], a[1], a[2], a[3]
     r = run_tool([exe, img, opsf] + mode, timeout=3000)
@@ -154,6 +167,7 @@ def main():
             if r.rc != 0:
                 raise RuntimeError("cannot build image: %s" % r.err[-300:])
             images.append(("v1-gensquashfs-" + comp, open(img, "rb").read(), None))
+        images.append(("v4-big-inode-table", big_inode_table_image(), None))
         dmg, valid3 = damaged_images(sd)
         for name, data in dmg:
             images.append((name, data, valid3))
